@@ -235,8 +235,9 @@ struct ApiWorld : World {
                 Json m = mk("misuse");
                 static const std::vector<std::string> idle_kinds = { "process_idle", "end_idle", "query_no_grammar", "empty_align_text", "unknown_word_align_text", "garbage_jsgf", "empty_jsgf", "add_empty_word",
                                                                      "add_empty_pron", "add_unknown_phone", "lookup_empty", "lookup_unknown", "set_cmn_empty", "set_cmn_garbage", "retain_free", "json_no_utt",
-                                                                     "nbest_no_utt", "lattice_no_utt", "align_no_utt", "set_logfile_null" };
-                static const std::vector<std::string> utt_kinds = { "start_twice", "free_mid_utt", "process_zero_samples", "retain_free", "lookup_unknown", "set_cmn_garbage", "start_twice" };
+                                                                     "nbest_no_utt", "lattice_no_utt", "align_no_utt", "set_logfile_null", "reinit_bad_dict", "reinit_bad_fe", "reinit_bad_hmm" };
+                static const std::vector<std::string> utt_kinds = { "start_twice", "free_mid_utt", "process_zero_samples", "retain_free", "lookup_unknown", "set_cmn_garbage", "start_twice",
+                                                                    "grammar_mid_utt", "add_word_mid_utt" };
                 std::string kind = st.in_utt ? r.pick(utt_kinds) : r.pick(idle_kinds);
                 if (kind == "free_mid_utt" && !r.chance(0.3))
                     kind = "start_twice";
@@ -250,6 +251,8 @@ struct ApiWorld : World {
                 }
                 if (kind == "empty_align_text")
                     st.grammar = true;
+                if (kind.compare(0, 11, "reinit_bad_") == 0)
+                    st.grammar = false;
                 continue;
             }
             if (!st.grammar) {
@@ -662,6 +665,36 @@ struct ApiWorld : World {
                     }
                 } else if (kind == "set_logfile_null") {
                     L(decoder_set_logfile(s.d, NULL));
+                } else if (kind == "grammar_mid_utt") {
+                    // a grammar loaded while an utterance is in progress: either outcome is acceptable, the utterance
+                    // goes on being fed and ended afterwards
+                    if (s.in_utt) {
+                        int rv = L(decoder_set_align_text(s.d, lang_of(s.tmpl) == "en" ? "go forward ten meters" : "avance de dix mètres"));
+                        out.events.i64(rv);
+                        out.probes[rv == 0 ? "api.grammar_mid_utt_accepted" : "api.grammar_mid_utt_refused"]++;
+                    }
+                } else if (kind == "add_word_mid_utt") {
+                    if (s.in_utt) {
+                        int rv = L(decoder_add_word(s.d, "zzmidutt", lang_of(s.tmpl) == "en" ? "G OW" : "a v", 1));
+                        out.events.i64(rv);
+                    }
+                } else if (kind.compare(0, 11, "reinit_bad_") == 0) {
+                    // a reinitialisation refused at one of its stages, then a good one: the decoder must come back
+                    if (!s.in_utt) {
+                        config_t *c = make_config(s.tmpl);
+                        if (kind == "reinit_bad_dict")
+                            L(config_set_str(c, "dict", "/vfs/no-such-dictionary.dic"));
+                        else if (kind == "reinit_bad_fe")
+                            L(config_set_int(c, "nfft", 3)); // (a key the model's own feature parameters do not override)
+                        else
+                            L(config_set_str(c, "hmm", "/vfs/no-such-model"));
+                        expect_fail(L(decoder_reinit(s.d, c)), "decoder_reinit"); // consumes c
+                        int rv = L(decoder_reinit(s.d, make_config(s.tmpl)));
+                        out.events.i64(rv);
+                        s.has_grammar = false;
+                        if (rv < 0)
+                            bad(opi, "decoder_usable_afterwards", kind, "decoder_reinit with a good configuration failed after a refused one");
+                    }
                 }
             }
             if (!out.violations.empty())
